@@ -169,7 +169,8 @@ def param_desc(draw):
     k = draw(st.sampled_from(["in", "in", "knot", "knot", "start", "end", "other", "near"]))
     if k == "near":
         # a parameter 2^-24 (6e-8) below or above an interior knot: a distinct, valid parameter right next to a span boundary
-        return ["near", draw(st.integers(0, 63)), draw(st.integers(1, 63)) / 64.0, draw(st.sampled_from([-1, 1]))]
+        return ["near", draw(st.integers(0, 63)), draw(st.integers(1, 63)) / 64.0, draw(st.sampled_from([-1, 1])),
+                draw(st.sampled_from([2.0 ** -24, 2.0 ** -24, 2.0 ** -36, 0.0]))]      # 0.0 = one unit in the last place
     if k == "other":
         # a knot value of ANOTHER parametric direction (exposes u/v mix-ups); falls back to 'in' for curves
         return ["other", draw(st.integers(0, 63)), draw(st.integers(1, 63)) / 64.0]
